@@ -26,7 +26,8 @@ WQ = [("fixed", "quantized_bits(4,0,1,alpha=1.0)"), ("fixed", "quantized_bits(6,
       ("po2-nosign", "quantized_po2(4,max_value=1)"), ("po2-nosign", "quantized_po2(3,max_value=0.5)"), ("ternary", "ternary(alpha=1.0)"), ("binary", "binary(alpha=1.0)"),
       ("auto_po2", "quantized_bits(4,0,1,alpha='auto_po2')"), ("auto_po2", "quantized_bits(6,1,1,alpha='auto_po2')")]
 BQ = ["quantized_bits(6,1,1)", "quantized_bits(8,3,0)", "quantized_bits(4,0,1)", "quantized_po2(4)", None]
-AQ = ["quantized_relu(6,2)", "quantized_bits(6,2,1)", "quantized_relu(4,1)", "quantized_bits(4,1,0)", "quantized_relu(3,0)"]
+AQ = ["quantized_relu(6,2)", "quantized_bits(6,2,1)", "quantized_relu(4,1)", "quantized_bits(4,1,0)", "quantized_relu(3,0)",
+      "quantized_relu_po2(4)", "quantized_relu_po2(3,max_value=1)", "quantized_relu_po2(4,negative_slope=0.25)", "quantized_relu(5,1,negative_slope=0.125)"]
 
 
 def pick(rng, l):
@@ -203,6 +204,7 @@ def main():
       lmap = qt._layer_map["layer_data_type_map"]  # pylint: disable=protected-access
       if sample is None:
         sample = {"model": meta, "source": sqs, "weights": wmode}
+      known_bad = {}
       for l in m.layers[1:]:
         e = lmap.get(l)
         if e is None:
@@ -224,6 +226,9 @@ def main():
             if one_step_over(iq, bad) and wmode in ("all-min", "signs"):
               rep.finding("C18-most-negative-times-most-negative-overflows-by-one", msg + " (the producing layer's accumulator, exactly one step above its top)",
                           {"model": meta, "weights": wmode, "source": sqs})
+            elif prod and prod[0].name in known_bad:
+              # the producer's accumulator was already reported under a known finding: this is the same tensor seen from its consumer
+              rep.finding(known_bad[prod[0].name], msg + " (the producing layer's accumulator)", {"model": meta, "weights": wmode, "source": sqs})
             else:
               rep.violation(f"input-type-{i}-{wmode}-{l.name}", msg, {"model": meta, "weights": wmode})
         if tname == "QActivation":
@@ -233,6 +238,12 @@ def main():
             if not ok:
               rep.violation(f"activation-type-{i}-{wmode}-{l.name}", f"{l.name} ({l.quantizer}): output {bad} does not fit the reported type "
                             f"(bits {oq.bits}, int_bits {oq.int_bits}, signed {oq.is_signed})", {"model": meta})
+          elif oq.mode == 1:
+            # power-of-two activation: membership of every emitted value in the reported po2 type, judged by Coq mem_type
+            vals = np.unique(outs[l.name])
+            texts.append(f"forallb (mem_type {QK.qt_lit(oq)}) [{'; '.join(vlib.ratlit(Fraction(float(v))) for v in vals[:40])}]")
+            items.append(("activation", i, wmode, l.name, meta, f"{type(l.quantizer).__name__}(bits={l.quantizer.bits}, max_value={l.quantizer.max_value}, "
+                                                                f"negative_slope={getattr(l.quantizer, 'negative_slope', 0)})"))
           continue
         if tname not in ("QDense", "QConv1D", "QConv2D", "QDepthwiseConv2D"):
           continue
@@ -264,7 +275,17 @@ def main():
                  f"signed {acc.is_signed})")
           # most-negative x most-negative: the corner excluded by the multiplier / shifter / mux theorems -- exactly one step above the top
           fid = "C18-most-negative-times-most-negative-overflows-by-one" if (one_step_over(acc, bad) and bool(iq.is_signed) and wmode in ("all-min", "signs")) else None
+          # inputs produced by a leaky quantized_relu_po2 are negative although the reported input type is unsigned (known finding)
+          pq_ = getattr(prod[0], "quantizer", None) if prod else None
+          if fid is None and type(pq_).__name__ == "quantized_relu_po2" and getattr(pq_, "negative_slope", 0) and float(np.min(xin)) < 0:
+            fid = "C18-leaky-relu-po2-reported-unsigned"
+          # po2 kernel on po2 activations: the Adder multiplier rule under-sizes the exponent range in two operand classes (C16 known findings)
+          if fid is None and getattr(iq, "is_po2", 0) and getattr(wq_t, "is_po2", 0):
+            capw, capx = 0 < float(wq_t.max_val_po2) <= 1, 0 < float(iq.max_val_po2) <= 1
+            if bool(iq.is_signed) != bool(wq_t.is_signed) or capw != capx:
+              fid = "C18-po2-kernel-on-po2-activations-adder-rule"
           if fid:
+            known_bad[l.name] = fid
             rep.finding(fid, msg, {"model": meta, "weights": wmode, "source": sqs})
           else:
             rep.violation(f"preact-not-representable-{i}-{wmode}-{l.name}", msg, {"model": meta, "weights": wmode, "source": sqs})
@@ -282,7 +303,7 @@ def main():
           texts.append(f"render (layer_acc {QK.qt_lit(wq_t)} {QK.qt_lit(iq)} {kops} {bl})")
         items.append(("acc", i, wmode, l.name, meta, QK.render(acc)))
         texts.append(f"forallb (mem_type {QK.qt_lit(acc)}) [{vlib.ratlit(Fraction(float(np.min(pre))))}; {vlib.ratlit(Fraction(float(np.max(pre))))}]")
-        items.append(("preact-extremes", i, wmode, l.name, meta, ok))
+        items.append(("preact-extremes", i, wmode, l.name, meta, fixed_fits(acc, [np.min(pre), np.max(pre)])[0]))   # the same two values the Coq side judges
         if good:
           n_ok += 1
       # ---- the weight-based estimator on the quantized weights
@@ -396,7 +417,14 @@ def main():
   n_model_eq = 0
   for it, r in zip(items, flat):
     kind, i, wmode, lname, meta, extra = it
-    if kind in ("weight", "bias"):
+    if kind == "activation":
+      if r is not True:
+        msg = f"{lname}: an emitted activation value ({extra}) is not a member of the reported activation type"
+        if "relu_po2" in extra and not extra.endswith("negative_slope=0)") and not extra.endswith("negative_slope=0.0)"):
+          rep.finding("C18-leaky-relu-po2-reported-unsigned", msg, {"model": meta})
+        else:
+          rep.violation(f"activation-type-{i}-{wmode}-{lname}", msg, {"model": meta})
+    elif kind in ("weight", "bias"):
       if r is not True:
         rep.violation(f"{kind}-type-{i}-{wmode}-{lname}", f"{lname}: a quantized {kind} value ({extra}) is not a member of the reported {kind} type", {"model": meta})
     elif kind == "acc":
